@@ -246,7 +246,7 @@ PROPS = {
         level_text="Lean 4 invariant proof over all histories of node operations: allocated = sum of bound allocations and available = capacity - allocated - occupied (cached field updated as the code updates it) are preserved by each of the ten node operations and hold in every reachable state; "
                    "TryAddAllocation succeeds only if the ask fits in available, a refused add changes nothing, scheduler operations keep available non-negative (forced ones shown to break it by witnesses). "
                    "Tie: correspondence of the hand-written Node model against objects.Node with the same clauses evaluated on the implementation's dumped state (ledger_exec_iff links the executable clauses to the theorem).",
-        level_note="trusted: Lean kernel; hand-written Node model tied by correspondence only; exact arithmetic (NoSat); caller contract Pre; the bind-guard clauses are covered by the full-stack check once built",
+        level_note="trusted: Lean kernel; hand-written Node model tied by correspondence only; exact arithmetic (NoSat); caller contract Pre; the bind-guard clauses (fits, registered, schedulable, not reserved for another ask, required node) are evaluated on every scheduling cycle of the full-stack run against the state before the cycle",
         technique="Lean 4 invariant proof (induction over node operation histories) + differential correspondence on objects.Node",
         design_ref="DESIGN.md section 4 C01",
     ),
@@ -307,7 +307,7 @@ PROPS = {
         rule='core: random histories (30..120 operations) on a real ClusterContext driven synchronously through hooks: node create/create-drain/update/drain/undrain/decommission, application add (plain and gang, several users, static and dynamic queues, duplicate ids) / remove, asks (plain, placeholder, task groups, required node, priorities), RM-placed allocations, in-place resizes, foreign allocations add/update/remove, releases by key and of whole applications, scheduling cycles (predicate plugin denying some (ask,node) pairs, reservation delay 0, preemption on), placeholder and state timers fired explicitly, shim confirmations (PLACEHOLDER_REPLACED / TIMEOUT / PREEMPTED) delivered immediately, late, twice or never; 60% of the histories end by releasing and removing everything (drain). After every operation the complete state (nodes, queues, applications with asks/allocations, counters, user/group trackers) and the messages sent to the shim are dumped; the driver evaluates every clause on the dump, the per-step clauses against the previous dump, the shim protocol automaton on the messages, and steps the Core model from the previous dump for the modelled operations. non-trivial = not a reset line; distinct = distinct protocol lines',
         trusted=['one partition; the harness calls the handler functions of ClusterContext directly (what RMProxy/Scheduler event loops would call) from a single goroutine', 'the asynchronous terminated-application callback is awaited (settle) before the state is dumped', "scheduler decisions (which ask, which node) are taken from the core's own announcements, not predicted"],
         assumptions=[],
-        level_text="Lean 4 proofs about the protocol automaton (YkModel/Shim.lean) that the driver runs on the SI traffic recorded from the real core: in every view reached by an accepted trace bound keys are pairwise distinct and disjoint from the outstanding asks (exactly-once), a new allocation is accepted iff it is for an outstanding ask of an accepted application on a registered node with an unbound key (or the one echo of a shim-reported placement), a release iff the key is bound or outstanding (repeatable while unconfirmed), answers only to pending submissions, a rejection leaves no trace. The core's traffic is judged by `ShimView.step = none`.",
+        level_text="Lean 4 proofs over the stepped ledger model of the core (YkModel/CoreOps.lean: ask, scheduler bind, release by key incl. the terminated-application path, node create/update/drain, foreign add/remove): each operation preserves the books (application totals = sums over its allocations and unallocated asks, every queue = sum over the applications at or below it, node allocated = sum of its allocations, available = capacity - allocated - occupied) for ALL states; with no live application and no allocation left every total is exactly zero; the executable clauses the driver evaluates on the dumped state imply the books (conserved_exec_sound). Tie: one-step refinement (the model stepped from the implementation's previous dumped state must reproduce every ledger of its next state) + all conservation clauses I1..I11 evaluated on every dumped state of the real ClusterContext; operations outside the stepped model (placeholder swap, application/node removal, timers, preemption) are covered by the clauses only (counted in the evidence)",
         level_note='trusted: Lean kernel; hand-written models tied by correspondence / monitors on the real core only; exact arithmetic; single partition, single goroutine',
         technique='Lean 4 invariant proof over a stepped ledger model + one-step refinement correspondence and monitors on the real core',
         design_ref='DESIGN.md section 4 C03',
